@@ -453,7 +453,31 @@ def lean_obligations(ctx):
             cur = open(gp).read() if os.path.exists(gp) else None
             if cur != ctx.generated_text:
                 open(gp, "w").write(ctx.generated_text)
-        return _lean_obligations(ctx)
+        if getattr(ctx, "translated_text", None) is not None:
+            tp = os.path.join(LEAN, "RdsC", "Translated.lean")
+            cur = open(tp).read() if os.path.exists(tp) else None
+            if cur != ctx.translated_text:
+                open(tp, "w").write(ctx.translated_text)
+        ok, msg = _lean_obligations(ctx)
+        if not ok:
+            return ok, msg
+        # refinement obligations between the translated C source and the model (T0)
+        import refine
+        if os.environ.get("VERIF_NO_REFINE") == "1":
+            ctx.cov["refinement"] = {"status": "disabled by VERIF_NO_REFINE"}
+            return ok, msg
+        if getattr(ctx, "translated_text", None) is None:
+            ctx.lean_log = ctx.cov.get("translation", {}).get("translator", "")
+            return False, "the C source could not be translated (tools/c2lean.py failed): the refinement between source and model cannot be re-checked"
+        rr = refine.check(ctx, locked=True)
+        mine = [b for b in rr["broken"] if ctx.pid in b["owners"]]
+        ctx.cov["refinement"] = {"status": rr["status"], "build_s": rr.get("build_s"),
+                                 "broken_declarations": [{k: b[k] for k in ("file", "decl", "msg", "owners")} for b in rr["broken"]][:20],
+                                 "broken_for_this_property": [b["decl"] for b in mine]}
+        if mine:
+            ctx.lean_log = "; ".join("%s (%s:%d): %s" % (b["decl"], b["file"], b["line"], b["msg"]) for b in mine[:6])
+            return False, "refinement between the translated C source and the model no longer checks: " + ", ".join(str(b["decl"]) for b in mine[:6])
+        return ok, msg
 
 def _lean_obligations(ctx):
     pid = ctx.pid
@@ -551,6 +575,9 @@ def run_property(pid, tier, seed):
             du, dn, changed = infra.extraction(full=(tier != "quick" and pid in ("C11",)))
             ctx.cov["generated_changed"] = changed
             ctx.generated_text = open(os.path.join(LEAN, "RdsModel", "Generated.lean")).read()
+            # T0: translate the current C source (tools/c2lean.py) -> RdsC/Translated.lean
+            ctx.translated_text, tchanged, tmsg = infra.translation()
+            ctx.cov["translation"] = {"changed": tchanged, "translator": tmsg}
             if du["const"].get("eccNibbleOnlyViolations", 0) > 0 and pid == "C11":
                 pi, e = du["eccbad"][0] if du["eccbad"] else (0, 0)
                 path = runner.write_replay(pid, "nibble", ["property=C11 kind=table (T1, complete sweep of all 65 536 PI values x 256 ECC): the country depends on more than the PI country nibble"], ["new", "p %d 4096 %d 0 0 0 0 0" % (pi, e)])
